@@ -108,10 +108,11 @@ static void chain_case(Tape& t, Ctx& c)
     int si = live[(size_t)t.range(0, (int)live.size() - 1)]; Slot& src = pool[si];
     int di = t.range(0, NS - 1); if(di == si) di = (si + 1) % NS; Slot& dst = pool[di];
     // candidate operations for this kind
-    enum { O_CLONE, O_MOVE, O_LAYOUT, O_TRANSPOSE, O_TRANSPOSE2, O_PERMUTE, O_TO_C32, O_TO_C64, O_TO_BD, O_TO_SC, O_GRAPH, O_SELF_CONVERT };
+    enum { O_CLONE, O_MOVE, O_LAYOUT, O_TRANSPOSE, O_TRANSPOSE2, O_TRANSPOSE_INTO, O_TRANSPOSE_INPLACE, O_PERMUTE, O_TO_C32, O_TO_C64, O_TO_BD, O_TO_SC, O_GRAPH, O_SELF_CONVERT };
     std::vector<int> ops = {O_CLONE, O_MOVE, O_SELF_CONVERT};
     if(src.kind != K_DM) ops.push_back(O_LAYOUT);
-    if(src.kind == K_C64 || src.kind == K_B22 || src.kind == K_DM) { ops.push_back(O_TRANSPOSE); ops.push_back(O_TRANSPOSE2); }
+    if(src.kind == K_C64 || src.kind == K_B22 || src.kind == K_DM) { ops.push_back(O_TRANSPOSE); ops.push_back(O_TRANSPOSE2); ops.push_back(O_TRANSPOSE_INTO); }
+    if(src.kind == K_DM) { ops.push_back(O_TRANSPOSE_INTO); ops.push_back(O_TRANSPOSE_INPLACE); }
     if(src.kind == K_C64 || src.kind == K_B22 || src.kind == K_B23) { ops.push_back(O_PERMUTE); ops.push_back(O_PERMUTE); }
     if(src.kind == K_C64) { ops.push_back(O_TO_C32); ops.push_back(O_TO_BD); ops.push_back(O_TO_SC); ops.push_back(O_GRAPH); }
     if(src.kind != K_C64 && src.kind != K_DM) { ops.push_back(O_TO_C64); ops.push_back(O_TO_C64); } // DenseMatrix offers no conversion to sparse formats
@@ -119,7 +120,7 @@ static void chain_case(Tape& t, Ctx& c)
     bool entry_free = nnz_of(src.model) == 0;
     // in-place permutation rewrites the value and index arrays: relatives sharing them (shallow/weak/layout clones,
     // same-type converts, shared layouts) would change as documented - only unshared containers are permuted
-    if(op == O_PERMUTE) for(int i = 0; i < NS; ++i) if(i != si && pool[i].kind != K_NONE && (pool[i].vg == src.vg || pool[i].ig == src.ig)) { op = O_CLONE; break; }
+    if(op == O_PERMUTE || op == O_TRANSPOSE_INPLACE) for(int i = 0; i < NS; ++i) if(i != si && pool[i].kind != K_NONE && (pool[i].vg == src.vg || pool[i].ig == src.ig)) { op = O_CLONE; break; }
     // known-finding classes switched off by the driver (exactly the failing class, nothing more)
     if(entry_free && src.kind == K_C64 && op == O_PERMUTE && c.excl("c02-csr-entryfree-permute")) op = O_CLONE;
     if(entry_free && (src.kind == K_B22 || src.kind == K_B23) && op == O_PERMUTE && c.excl("c02-bcsr-entryfree-permute")) op = O_CLONE;
@@ -127,7 +128,7 @@ static void chain_case(Tape& t, Ctx& c)
     if(entry_free && src.kind == K_C64 && op == O_TO_SC && c.excl("c02-csr-entryfree-to-cscr")) op = O_CLONE;
     if(entry_free && src.kind == K_C64 && op == O_GRAPH && c.excl("c02-csr-entryfree-graph")) op = O_CLONE;
     if(entry_free && src.kind == K_SC && op == O_TO_C64 && c.excl("c02-generic-convert-entryfree")) op = O_CLONE;
-    if(entry_free && (src.kind == K_C64 || src.kind == K_B22) && (op == O_TRANSPOSE || op == O_TRANSPOSE2) && c.excl("c02-entryfree-transpose")) op = O_CLONE;
+    if(entry_free && (src.kind == K_C64 || src.kind == K_B22) && (op == O_TRANSPOSE || op == O_TRANSPOSE2 || op == O_TRANSPOSE_INTO) && c.excl("c02-entryfree-transpose")) op = O_CLONE;
     J h = J::obj(); h.set("src", si); h.set("dst", di); h.set("src_kind", kind_name[src.kind]);
     std::string opname;
     switch(op)
@@ -189,6 +190,34 @@ static void chain_case(Tape& t, Ctx& c)
       if(twice && src.kind != K_DM) { // double transpose keeps the pattern as well
         Dense d = view(dst); VF_CHECK(d.stored == src.model.stored || nnz_of(src.model) == 0, "double transpose changed the sparsity pattern"); }
       break; }
+    case O_TRANSPOSE_INTO: {
+      // two-argument form target.transpose(x) into a prepared target: empty, already of the transposed shape (storage re-use
+      // branch of DenseMatrix; the 'refresh A^T after A changed' use), of the source's shape, or the source itself
+      static const char* tn[] = {"empty", "transposed-shape", "source-shape", "self"};
+      int prep = t.pick({1, 3, 1, 1}); if(prep == 3 && src.kind == K_B22) prep = 1;
+      opname = std::string("transpose-into:") + tn[prep]; h.set("op", opname); hist.add(h); c.desc.set("history", hist); c.op = opname + "@" + kind_name[src.kind]; c.label("op:" + opname);
+      if(src.model.r != src.model.c && src.model.r > 1 && src.model.c > 1) c.label("transpose-into:nonsquare"); c.announce();
+      Dense mt = src.model.transposed();
+      if(prep == 3) { // x and the target are the same object (the library does this itself: CSR temp.transpose(temp))
+        bool shared = false; for(int i = 0; i < NS; ++i) if(i != si && pool[i].kind != K_NONE && (pool[i].vg == src.vg || pool[i].ig == src.ig)) shared = true;
+        if(src.kind == K_C64) src.c64.transpose(src.c64); else src.dm.transpose(src.dm);
+        // a square dense matrix is transposed within its own storage: relatives sharing the values would follow, so their
+        // models would have to change too - in that case keep the history simple and transpose back
+        if(shared && src.kind == K_DM && src.model.r == src.model.c) { src.dm.transpose(src.dm); }
+        else { src.model = mt; if(!(src.kind == K_DM && mt.r == mt.c)) { src.vg = next_group++; src.ig = next_group++; } }
+        di = si; break; }
+      dst.reset(); dst.kind = src.kind; dst.model = mt;
+      switch(src.kind) {
+        case K_C64: if(prep == 1) { dst.c64 = src.c64.transpose(); for(Index k = 0; k < dst.c64.used_elements(); ++k) dst.c64.val()[k] += 1.0; } else if(prep == 2) dst.c64 = src.c64.clone(CloneMode::Deep); dst.c64.transpose(src.c64); break;
+        case K_B22: if(prep == 1) { dst.b22 = src.b22.transpose(); for(Index k = 0; k < dst.b22.used_elements() * 4; ++k) dst.b22.template val<Perspective::pod>()[k] += 1.0; } else if(prep == 2) dst.b22 = src.b22.clone(CloneMode::Deep); dst.b22.transpose(src.b22); break;
+        default: if(prep == 1) dst.dm = DM(Index(src.model.c), Index(src.model.r), 7.0); else if(prep == 2) dst.dm = DM(Index(src.model.r), Index(src.model.c), 7.0);
+          dst.dm.transpose(src.dm);
+          if(prep == 1) { // refresh: change the source, transpose into the same target again (re-use branch a second time), and back
+            DM tmp(Index(src.model.r), Index(src.model.c), 5.0); dst.dm.transpose(tmp); dst.dm.transpose(src.dm); } }
+      break; }
+    case O_TRANSPOSE_INPLACE: {
+      opname = "transpose-inplace"; h.set("op", opname); hist.add(h); c.desc.set("history", hist); c.op = opname + "@" + kind_name[src.kind]; c.label("op:" + opname); c.announce();
+      src.dm.transpose_inplace(); src.model = src.model.transposed(); di = si; break; }
     case O_PERMUTE: {
       bool back = t.flag(); opname = back ? "permute+inverse" : "permute"; h.set("op", opname);
       long br = (src.kind == K_B22 || src.kind == K_B23) ? 2 : 1, bc = (src.kind == K_B22) ? 2 : (src.kind == K_B23 ? 3 : 1); Index nr = Index(src.model.r / br), nc = Index(src.model.c / bc);
